@@ -1,12 +1,12 @@
 """C18 seglog readers never serve stale or unflushed data: K2 history differential (one writer, long-lived readers)
 + a direct monitor of the property statement: an abstract log (offset -> record) replayed from the operations,
 against which every read / iteration result of the implementation is checked."""
-from checks.sllib import expand, spec_len, spec_digest
+from checks.sllib import expand, spec_len, spec_digest, coq_list
 
 PROP = "C18"
 COQ_IMPORTS = "From SV Require Import Model.Crc32 Model.Seglog."
 READY = True
-XCHECK = 0
+XCHECK = 12
 RULE = ("a case is ONE history `h <H> <size> <start> op ; op ; ...` run on a real segment: 320 (thorough 2400) histories of 20..90 (..160) generated operations "
         "+ a closing sweep (sync; every reader reads the last live records with both hints and iterates from the start; raw file digest). "
         "Ops: append 30% (sizes 0..60, 120..320 around the compression threshold, in 1/8 of the histories also 2040..70000 around the 2048/4096/16K/64K buffers), "
@@ -130,6 +130,38 @@ def monitor(c, o):
             elif out != "p=" + want: return ("replace-result", f"op #{i}: replace_header at {off} returned {out}, expected {want}")
     return None
 
+def coq_goal(c, e):
+    """extraction cross-check: the write offset and flushed offset after the first sync of a short uncompressed prefix,
+    evaluated inside Coq by vm_compute on the same model"""
+    if e is None: return None
+    H, size, start, ops = parse_case(c)
+    outs = e.replace("!", "").split(";")
+    if len(outs) != len(ops): return None
+    terms, total = [], 0
+    for i, op in enumerate(ops):
+        k = op[0]
+        if k == "a":
+            if op[3] != "-": return None
+            total += spec_len(op[2])
+            if total > 500: return None
+            terms.append(f"OAppend {coq_list(expand(op[1]))} {coq_list(expand(op[2]))}")
+        elif k == "f": terms.append("OFlush")
+        elif k == "l":
+            if int(op[1]) >= 2**62: return None
+            terms.append(f"OSetLen {op[1]}")
+        elif k == "c": terms.append("OComp " + ("true" if op[1] == "1" else "false"))
+        elif k == "n": terms.append("ONewReader")
+        elif k == "k": terms.append(f"OClone {op[1]}%nat")
+        elif k in ("r", "i", "p", "d"): continue      # reads do not change the writer; replace_header is skipped with its history
+        elif k == "s":
+            terms.append("OSync")
+            if not outs[i].startswith("s="): return None
+            v = outs[i][2:]
+            if any(o[0] == "p" for o in ops[:i]): return None
+            run = f"(s_w (fst (sl_run {H} (fun x => x) (fun x => Some x) (sl_init {size} {start}) [{'; '.join(terms)}])))"
+            return f"(w_off {run}, w_flushed {run}) = ({v}, {v})"
+    return None
+
 def nontrivial(c, o):
     return ";r=ok:" in o or ";i=" in o
 def shrink_key(c): return (len(c), c)
@@ -162,7 +194,7 @@ def shrink(v, rerun):
     return best
 
 def distribution(pairs):
-    d = {"histories": len(pairs), "ops": 0, "with-set_len-below-cache(model-flag)": 0}
+    d = {"histories": len(pairs), "ops": 0}
     for c, o in pairs:
         for op in c.split(" ", 4)[4].split(";"):
             k = op.split()[0] if op.split() else "?"
